@@ -271,8 +271,8 @@ def XIRR(
         algorithm-of-xirr-funcation
     """
 
-    values = values.flatten(func_xltypes.Number, None)
-    dates = dates.flatten(func_xltypes.DateTime, None)
+    values = values.flatten(func_xltypes.Number, lambda x: x is not None)
+    dates = dates.flatten(func_xltypes.DateTime, lambda x: x is not None)
     # need to cast dates and guess to Python types else optimizer complains
     dates = [float(date) for date in dates]
     guess = float(guess)
@@ -313,8 +313,8 @@ def XNPV(
     https://support.microsoft.com/en-us/office/
         xnpv-function-1b42bbf6-370f-4532-a0eb-d67c16b664b7
     """
-    values = values.flatten(func_xltypes.Number, None)
-    dates = dates.flatten(func_xltypes.DateTime, None)
+    values = values.flatten(func_xltypes.Number, lambda x: x is not None)
+    dates = dates.flatten(func_xltypes.DateTime, lambda x: x is not None)
 
     # TODO: Ignore non numeric cells and boolean cells.
     if len(values) != len(dates):
